@@ -15,7 +15,7 @@ CONSTANTS
   Atomic = TRUE
   ReportFine = FALSE
   AutoApprove = TRUE
-  Opts = {"byp", "wait", "unwait", "nooct"}
+  Opts = {"byp", "wait", "unwait", "nooct", "after"}
   ReportOnce = FALSE
   MaxLevel = 100
   EmitJson = TRUE
